@@ -1,6 +1,22 @@
-import Sympler
+import Sympler.FuncCompile
+import Sympler.SmartList
+import Sympler.Verlet
+import Sympler.KernelsDrv
+import Sympler.DataFormatDriver
+import Sympler.Bonds
+import Sympler.Validate
+import Sympler.Stages
+import Sympler.DynDriver
+import Sympler.PairSearch
+import Sympler.Collide
+import Sympler.Restart
+import Sympler.Threads
+import Sympler.Expr
 
-/-! Line-protocol driver `symdrv`: first stdin line `model <name>`, rest goes to the model's driver. -/
+/-! Imports: model and driver modules ONLY (no lemma files), so that a proof broken by a regenerated table of one property
+    never keeps the driver of another property from building.
+
+Line-protocol driver `symdrv`: first stdin line `model <name>`, rest goes to the model's driver. -/
 
 partial def readAll (h : IO.FS.Stream) (acc : Array String) : IO (Array String) := do
   let line ← h.getLine
